@@ -57,6 +57,9 @@ class DefaultPolicy(ExcModel):
         self.resolver = resolver
         self.summaries = summaries
         self.subscripts_raise = True
+        # `assert` statements are internal invariants of the repository, not
+        # failure kinds: they get no exceptional edge (trusted base)
+        self.asserts_raise = False
 
     def call_raises(self, call, node):
         r = self.resolver.resolve_call(self.func, call)
